@@ -138,8 +138,8 @@ def api_case(fname, cls):
     return Case("api/%s/%s" % (fname.replace("engineexport_", ""), cls), run, functions=[fname], conc=False)
 
 
-def seed_case():
-    P = "C08/RDScript.rng_seed"
+def seed_case(prop="C08"):
+    P = "%s/RDScript.rng_seed" % prop
 
     def run(api):
         from props.C04 import mk_script
